@@ -27,7 +27,9 @@ REQUIRED_THEOREMS = sorted(set(srctie_pop.theorem_of(k) for k in srctie_pop.all_
     'C05_delta_layout_invariant', 'C05_covariate_part_is_logpdf',
     'C05_gauss_dvartheta_contract', 'C05_logn_dvartheta_contract', 'C05_trunc_dvartheta_contract',
     'C05_gaussNC_dvartheta_contract', 'C05_lognNC_dvartheta_contract',
-    'C05_pooled_pointwise', 'C05_obs_1d']
+    'C05_pooled_pointwise', 'C05_obs_1d',
+    'C05_maskFree_defined_iff', 'C05_maskFree_length', 'C05_reduced_hier_defined_iff', 'C05_reduced_hier_length',
+    'C05_reduced_forms_agree', 'C05_reduced_wrong_split']
 RULE = ('every elementary class (Gaussian / log-normal centred and non-centred, truncated Gaussian, pooled, '
         'heterogeneous) with n_dim 1-4, n_ids 1-6, the same parameter values as flat vector, '
         '(n_param_per_dim, n_dim) matrix and (n_ids, n_param_per_dim, n_dim) tensor (plus genuinely '
@@ -39,7 +41,11 @@ RULE = ('every elementary class (Gaussian / log-normal centred and non-centred, 
         'stream for every guard class and for the extreme n_dim / n_ids; whole-number cases in which each '
         'argument (parameters in every layout, observations, dlogp_dpsi, eta, covariates) of every method of '
         'every class and of compositions is handed over as float64 array / int64 array / list of Python '
-        'floats / list of Python ints; non-trivial = n_dim >= 2 and n_ids >= 2; distinct = distinct '
+        'floats / list of Python ints; ReducedPopulationModel with 1 .. n-1 fixed parameters around an elementary, '
+        'covariate or composed model (value, separate and hierarchical form, counts, individual parameters against a '
+        'fresh wrapped model at the full vector); call histories of 3-6 calls on one model in which the caller '
+        'updates the same parameter / observation / covariate array in place between calls (each call against a '
+        'fresh model on fresh copies); non-trivial = n_dim >= 2 and n_ids >= 2; distinct = distinct '
         '(class, n_dim, n_ids, guard class, upstream supplied)')
 ASSUMPTIONS = [
     'the closed-form kernels of GaussianModel / LogNormalModel (centred, non-centred) / TruncatedGaussianModel are '
@@ -827,6 +833,188 @@ def run_composed(ctx, chi, c):
 
 
 # ----------------------------------------------------------------------------------------
+# models built from other models: ReducedPopulationModel (fixed parameters) around an elementary / covariate /
+# composed model — value, separate and hierarchical return forms against a FRESH wrapped model at the full vector
+# ----------------------------------------------------------------------------------------
+def build_wrapped(chi, subs, n_ids, bare):
+    """the model of a composed case; `bare`: the single sub-model itself instead of a composition of one"""
+    if bare and len(subs) == 1:
+        return make_sub(chi, subs[0], n_ids)
+    cm = chi.ComposedPopulationModel([make_sub(chi, x, n_ids) for x in subs])
+    cm.set_n_ids(n_ids)
+    return cm
+
+
+def unpack_composed(c):
+    subs = [list(norm_sub(x)) for x in c['subs']]
+    n_ids = int(c['n_ids'])
+    params = np.asarray(c['params'], float)
+    n_dim = sum(x[1] for x in subs)
+    n_cov = sum(x[2] for x in subs)
+    obs = np.asarray(c['obs'], float).reshape(n_ids, n_dim)
+    cov = np.zeros((n_ids, 0)) if c.get('cov') is None else np.asarray(c['cov'], float).reshape(n_ids, n_cov)
+    up = None if c.get('up') is None else np.asarray(c['up'], float).reshape(n_ids, n_dim)
+    return subs, n_ids, params, n_dim, n_cov, obs, cov, up
+
+
+def gen_reduced(rng):
+    c = gen_composed(rng, n_sub=int(rng.integers(1, 4)))
+    c['bare'] = bool(len(c['subs']) == 1 and rng.random() < 0.7)
+    n_p = len(c['params'])
+    r = rng.random()
+    k = 1 if (r < 0.4 or n_p <= 2) else (n_p - 1 if r < 0.55 else int(rng.integers(1, n_p)))
+    c['fixed'] = sorted(int(j) for j in rng.choice(n_p, size=k, replace=False))
+    return c
+
+
+def all_sens(m, P, obs, up, kw):
+    """value, separate / flattened form, hierarchical form and individual parameters of one model"""
+    def u():
+        return None if up is None else np.array(up, float)
+
+    def sep():
+        s, dp, dt = m.compute_sensitivities(P, obs, dlogp_dpsi=u(), **kw)
+        return [float(s), np.asarray(dp, float), np.asarray(dt, float)]
+
+    def red():
+        s, ds = m.compute_sensitivities(P, obs, dlogp_dpsi=u(), reduce=True, **kw)
+        return [float(s), np.asarray(ds, float)]
+    return {'value': chi_call(lambda: float(m.compute_log_likelihood(P, obs, **kw))),
+            'separate': chi_call(sep), 'reduce': chi_call(red),
+            'indiv': chi_call(lambda: np.asarray(m.compute_individual_parameters(P, obs, **kw), float))}
+
+
+def form_same(a, b):
+    """two results of all_sens entries: same error kind, or same score and (next to a finite score) same arrays"""
+    if isinstance(a, str) or isinstance(b, str):
+        return isinstance(a, str) and isinstance(b, str) and a == b
+    if not isinstance(a, list):
+        a, b = [0.0, a], [0.0, b]
+    if not same(a[0], b[0]):
+        return False
+    for x, y in zip(a[1:], b[1:]):
+        if np.shape(x) != np.shape(y):
+            return False
+        if math.isfinite(a[0]) and not (np.array_equal(np.isnan(x), np.isnan(y))
+                                        and core.close(np.nan_to_num(x), np.nan_to_num(y))):
+            return False
+    return True
+
+
+def run_reduced(ctx, chi, c):
+    subs, n_ids, params, n_dim, n_cov, obs, cov, up = unpack_composed(c)
+    bare = bool(c.get('bare'))
+    fixed = sorted(int(j) for j in c['fixed'])
+    guard = c.get('guard', '?')
+    inp = {'subs': [wire_sub(x) for x in subs], 'n_ids': n_ids, 'params': params, 'obs': obs, 'cov': cov, 'up': up,
+           'guard': guard, 'bare': bare, 'fixed': fixed}
+    kw = {'covariates': cov} if n_cov > 0 else {}
+    ref = build_wrapped(chi, subs, n_ids, bare)           # fresh, evaluated at the full vector
+    red = chi.ReducedPopulationModel(build_wrapped(chi, subs, n_ids, bare))
+    red.set_n_ids(n_ids)
+    names = list(ref.get_parameter_names())
+    if len(names) != len(params) or len(set(names)) != len(names):
+        return
+    red.fix_parameters({names[j]: float(params[j]) for j in fixed})
+    mask = np.zeros(len(params), bool)
+    mask[fixed] = True
+    free = params[~mask]
+    special = any(x[0] in ('P', 'H') for x in subs)
+    shape = ('bare:' if bare else 'composed:') + '+'.join(x[0] + ('~%d' % x[2] if x[2] else '') for x in subs)
+    ctx.case('reduced/%s/%s' % ('special-dims' if special else 'hierarchical-only', 'cov' if n_cov else 'plain'),
+             nontrivial=('reduced/%s/ni%d/fix%d/%s' % (shape, n_ids, len(fixed), up is not None))
+             if (special and n_ids >= 2) else False, sample=inp)
+    nb, nt = ref.n_hierarchical_parameters(n_ids)
+    cnt = chi_call(lambda: [int(v_) for v_ in red.n_hierarchical_parameters(n_ids)] + [int(red.n_parameters())])
+    spec(ctx, 'C05.reduced/counts', cnt == [int(nb), int(nt) - len(fixed), len(free)], inp,
+         {'reduced': cnt, 'wrapped': [int(nb), int(nt)], 'n_fixed': len(fixed)})
+    R = all_sens(ref, params, obs, up, kw)
+    A = all_sens(red, free.copy(), obs, up, kw)
+    spec(ctx, 'C05.reduced/value', form_same(A['value'], R['value']), inp,
+         {'reduced': A['value'], 'wrapped at the full vector': R['value']})
+    spec(ctx, 'C05.reduced/indiv', form_same(A['indiv'], R['indiv']), inp,
+         {'reduced': A['indiv'], 'wrapped at the full vector': R['indiv']})
+    want = R['separate'] if isinstance(R['separate'], str) else R['separate'][:2] + [R['separate'][2][~mask]]
+    spec(ctx, 'C05.reduced/forms/separate', form_same(A['separate'], want), inp,
+         {'reduced': A['separate'], 'wrapped, free entries': want})
+    want = R['reduce']
+    if not isinstance(want, str) and len(want[1]) == nb + nt:
+        want = [want[0], np.hstack([want[1][:nb], want[1][nb:][~mask]])]
+    ok = form_same(A['reduce'], want)
+    if ok and not isinstance(A['reduce'], str) and not isinstance(cnt, str):
+        ok = len(A['reduce'][1]) == cnt[0] + cnt[1]
+    if not isinstance(R['reduce'], str):
+        mo = ctx.model('C05.reducedHier', int(nb), [bool(b_) for b_ in mask], R['reduce'][1].tolist())
+        got = A['reduce']
+        if len(mo) == 1:
+            ctx.agree('C05.reduced/hier-filter', got if isinstance(got, str) else 'ok', mo[0], inp)
+        else:
+            ctx.agree('C05.reduced/hier-filter', (not isinstance(got, str)) and len(got[1]) == len(mo[0])
+                      and mo[1] == len(free)
+                      and (not math.isfinite(got[0]) or core.close(np.nan_to_num(got[1]), np.nan_to_num(mo[0]))),
+                      True, inp)
+    spec(ctx, 'C05.reduced/forms/reduce', ok, inp, {'reduced': A['reduce'], 'wrapped, free entries': want, 'counts': cnt})
+    # the hierarchical form from the model's own separate form where no special dimension mixes the blocks
+    if (not special and not isinstance(A['separate'], str) and not isinstance(A['reduce'], str)
+            and math.isfinite(A['separate'][0])):
+        own = np.hstack([A['separate'][1].flatten(), A['separate'][2]])
+        spec(ctx, 'C05.reduced/forms/agree', np.shape(own) == np.shape(A['reduce'][1])
+             and core.close(own, A['reduce'][1]), inp, {'from separate': own, 'reduce': A['reduce'][1]})
+
+
+# ----------------------------------------------------------------------------------------
+# call histories in which the CALLER keeps one buffer per argument and updates it in place between calls
+# (finite-difference loops `theta[i] += eps`, optimisers reusing a vector, covariates rescaled in place):
+# every call must give what a fresh model gives for fresh copies of the values supplied to THAT call
+# ----------------------------------------------------------------------------------------
+def gen_inplace(rng):
+    c = gen_composed(rng, n_sub=int(rng.integers(1, 4)), with_cov=bool(rng.random() < 0.8))
+    c['bare'] = bool(len(c['subs']) == 1 and rng.random() < 0.7)
+    n_cov = sum(norm_sub(x)[2] for x in c['subs'])
+    steps = []
+    for _ in range(int(rng.integers(2, 6))):
+        r = rng.random()
+        which = 'cov' if (n_cov and r < 0.3) else ('obs' if r < 0.45 else 'params')
+        size = {'cov': c['cov'].size, 'obs': c['obs'].size, 'params': len(c['params'])}[which]
+        steps.append([which, int(rng.integers(size)), float(rng.integers(1, 5)) / 16.0])
+    c['steps'] = steps
+    return c
+
+
+def run_inplace(ctx, chi, c):
+    subs, n_ids, params, n_dim, n_cov, obs, cov, up = unpack_composed(c)
+    bare = bool(c.get('bare'))
+    steps = [[str(w), int(j), float(d)] for w, j, d in c['steps']]
+    inp = {'subs': [wire_sub(x) for x in subs], 'n_ids': n_ids, 'params': params, 'obs': obs, 'cov': cov, 'up': up,
+           'guard': c.get('guard', '?'), 'bare': bare, 'steps': steps}
+    m = build_wrapped(chi, subs, n_ids, bare)           # lives through the whole history
+    buf = {'params': params.copy(), 'obs': obs.copy(), 'cov': cov.copy()}
+    what = 'cov' if n_cov else 'plain'
+    ctx.case('inplace-history/%s/%s' % ('bare' if bare else 'composed', what),
+             nontrivial=('inplace/%s/%s' % ('+'.join(x[0] + ('~%d' % x[2] if x[2] else '') for x in subs),
+                                            '.'.join(s_[0][0] for s_ in steps))) if n_cov else False, sample=inp)
+    for k, st in enumerate([None] + steps):
+        if st is not None:
+            flat = buf[st[0]].reshape(-1)              # a view: the caller's array is updated in place
+            flat[st[1] % flat.size] += st[2]
+        kw = {'covariates': buf['cov']} if n_cov > 0 else {}
+        got = all_sens(m, buf['params'], buf['obs'], up, kw)
+        fkw = {'covariates': buf['cov'].copy()} if n_cov > 0 else {}
+        fresh = all_sens(build_wrapped(chi, subs, n_ids, bare), buf['params'].copy(), buf['obs'].copy(), up, fkw)
+        for key in ('value', 'separate', 'reduce', 'indiv'):
+            spec(ctx, 'C05.inplace_history/%s/%s' % (key, what), form_same(got[key], fresh[key]),
+                 dict(inp, call=k), {'call': k, 'updated in place': st, 'long-lived model, reused buffers': got[key],
+                                     'fresh model, fresh copies': fresh[key]})
+        # a covariate model on its own: the documented density with each individual's own parameters
+        if bare and n_cov and not is_err(got['value']):
+            th = vartheta(subs[0], n_ids, buf['params'], buf['cov'])
+            if subs[0][0] not in HIER or bool(np.all(th[:, 1] > 0)):
+                doc = documented_logpdf(subs[0][0], th, buf['obs'])
+                spec(ctx, 'C05.inplace_history/is_logpdf/covariate/' + CLASSNAME[subs[0][0]],
+                     same(got['value'], doc), dict(inp, call=k), {'call': k, 'chi': got['value'], 'documented': doc})
+
+
+# ----------------------------------------------------------------------------------------
 # recorded witnesses (the counterexample theorems) and a boundary corpus
 # ----------------------------------------------------------------------------------------
 def corpus():
@@ -1146,6 +1334,11 @@ def run(ctx):
                   gen_whole(rng, KCODES[i % len(KCODES)], int(rng.integers(1, 4)), int(rng.integers(1, 5))))
     for i in range(30 if quick else 900):
         ctx.guard(run_whole_composed, ctx, chi, gen_whole_composed(ctx.sub_rng(7 * 10 ** 6 + i), bool(i % 2)))
+    # models built around other models (fixed parameters), and call histories with buffers updated in place
+    for i in range(70 if quick else 2500):
+        ctx.guard(run_reduced, ctx, chi, gen_reduced(ctx.sub_rng(8 * 10 ** 6 + i)))
+    for i in range(60 if quick else 2000):
+        ctx.guard(run_inplace, ctx, chi, gen_inplace(ctx.sub_rng(9 * 10 ** 6 + i)))
     if not quick:
         # exhaustive small compositions: every ordered pair of kinds with dims 1-2, every triple with dim 1
         rng = ctx.sub_rng(3 * 10 ** 6)
@@ -1193,7 +1386,12 @@ def replay(ctx, data):
     print('replaying', failing.get('tag') or failing.get('correspondence'))
     print(json.dumps(core.jsonable(inp))[:1500])
     inp.pop('whole_numbers', None)
-    if inp.get('whole') and 'subs' in inp:
+    inp.pop('call', None)
+    if 'fixed' in inp:
+        run_reduced(ctx, chi, inp)
+    elif 'steps' in inp:
+        run_inplace(ctx, chi, inp)
+    elif inp.get('whole') and 'subs' in inp:
         run_whole_composed(ctx, chi, inp)
     elif inp.get('whole'):
         run_whole_elementary(ctx, chi, inp)
